@@ -1574,7 +1574,7 @@ def itzhack(dcm: np.ndarray, version: int = 3) -> np.ndarray:
         if version == 2:
             q = eigvec[:, np.where(np.isclose(eigval, 1.0))[0]].flatten().real
         else:
-            q = eigvec[:, eigval.argmax()]
+            q = eigvec[:, eigval.real.argmax()].real
     q = np.roll(q, 1)       # Re-arrange quaternion to [qw, qx, qy, qz]
     q[0] *= -1              # Original implementation computes inverse rotation
     return q / np.linalg.norm(q)
